@@ -30,13 +30,18 @@ CHECKS = {
          "right family; families are disjoint; the float-level model (Python int/float semantics on PrimFloat, "
          "correctly rounded int->float and int/int) answers unknown units with ValueError, mixed families with an "
          "exception, and returns a number only within one family; exact rational layer: identity, composition, "
-         "inversion, one inverse factor per unit for rate constants and round trip. Partial: the float error bound "
-         "|convF - exact| <= 3 ulp is stated (conv_float_close_full) but not proved; it is checked per case by the "
-         "oracle. Model tied to the code bit-exactly (vm_compute inside Coq vs Python through mantissa/exponent) on "
+         "inversion, one inverse factor per unit for rate constants and round trip; flint on every finite float returns a "
+         "numerically equal value, an int exactly when integral (no axioms), ints up to 2^53 are returned unchanged, the "
+         "big-int deviation is proved as a refutation (known finding); convert_units on floats is within 3*2^-53 of the "
+         "exact conversion whenever the intermediates stay in the normal range (Flocq bridge), and the unconditional bound "
+         "is refuted for subnormal underflow. Model tied to the code bit-exactly (vm_compute inside Coq vs Python through mantissa/exponent) on "
          "all unit pairs x values over 600 decades, huge ints, rate units of arity 1-3.",
     design="DESIGN.md 7 (C18)", technique="Coq proof over regenerated tables + rational algebra; PrimFloat model evaluated by vm_compute, bit-exact correspondence",
     note=BASE_NOTE + " PrimFloat/PrimInt63 kernel primitives appear in Print Assumptions (not axioms of this development). "
-         "Known finding (open): flint on ints not representable as doubles."),
+         "The float error-bound theorems and C18_flint_small_int depend on standard-library axioms only: FloatAxioms (mul_spec, "
+         "div_spec, eqb_spec, abs_spec, SF2Prim_Prim2SF, Prim2SF_valid, Prim2SF_SF2Prim) and, through Flocq/Reals, "
+         "ClassicalDedekindReals.sig_not_dec, sig_forall_dec, Classical_Prop.classic, functional_extensionality_dep; the "
+         "check fails on any other assumption. Known finding (open): flint on ints not representable as doubles."),
  "C16": dict(
     text="Proof (static clause): every LOAD_GLOBAL / module-level LOAD_NAME of every code object of the package, regenerated "
          "from the bytecode on every run, refers to a name bound in its module or builtins (kernel-checked finite "
